@@ -77,8 +77,9 @@ ASSUMPTIONS = [
     'ref_grid_node_list_around lists neighbours is derived from the ref_cell_add order of the harness (latest first) and compared '
     'by the dadj/radj/geomlist ops; locate_stored_weights assumes ghost copies of receptor vertices carry the owner coordinates and '
     'cell ids different from REF_EMPTY',
-    'known finding (not a model gap): ref_interp_geom_nodes fails when the receptor has geometry corners and no rank has a donor '
-    'geometry node (findings/interp-geom-nodes-donor-without-corners); the model returns the same REF_FAILURE',
+    'history: until /repo 0166523 ref_interp_geom_nodes failed when the receptor had geometry corners and no rank had a donor '
+    'geometry node (findings/interp-geom-nodes-donor-without-corners, fixed); model and C now leave such a corner unseeded, the '
+    'roundbox sessions and corpus/C11/*disc_donor* are the regression inputs',
     'outside the donor domain the tree path stores the candidate with the largest min weight among the cells whose scaled '
     'sphere is within search_fuzz: convexity then comes from the clip (interp_range), nearness is not quantified',
     'not verified here: the blind-send round trip of the parallel evaluation (serial np=1 only in this harness)',
